@@ -1256,6 +1256,10 @@ func genC18(g *G, sc *Scenario, tier string) {
 		// the same join paths declared by the transform's track_queries function (walked from the main dataset)
 		src = map[string]any{"Type": "MultiSource", "Name": "main", "_Dependencies": deps, "_track": true}
 	}
+	if g.P(0.25) {
+		// only the newest version of each changed entity is read; what has to be emitted is the same
+		src["LatestOnly"] = true
+	}
 	cfg := jobConfig("job1", src, map[string]any{"Type": "DatasetSink", "Name": "out"}, nil, "incremental", batch)
 	sc.Ops = append(sc.Ops, Op{K: "addJob", M: cfg})
 	// which predicates an entity of a dataset carries (as referencing side)
